@@ -113,7 +113,7 @@ func (w *W) Expired() bool {
 		return true
 	}
 	w.tick++
-	if w.tick&0x3ff == 0 && time.Now().After(w.deadline) {
+	if w.tick&0xf == 0 && time.Now().After(w.deadline) {
 		w.expired = true
 	}
 	return w.expired
